@@ -1,7 +1,7 @@
 (* C06 -- a failing update leaves every file untouched: all files are validated before the first write.
    Statements only; the proofs are in Proofs/RewriteFacts.v. *)
 From Coq Require Import List Bool NArith Arith Permutation.
-From BV Require Import Lib.PyStr Gen.Tables Model.Rewrite Proofs.RewriteFacts.
+From BV Require Import Lib.PyStr Gen.Tables Model.Rewrite Proofs.RewriteFacts Proofs.EagerFacts.
 Import ListNotations.
 
 Theorem C06_eager_atomic : forall fs items r es, rewrite_files_eager fs items = (r, es) -> r <> FilesOk -> writes es = [].
